@@ -3,6 +3,7 @@ pub mod client_sm;
 pub mod decode;
 pub mod framing;
 pub mod server_family;
+pub mod tls;
 
 pub fn run(id: &str, tier: &str) -> i32 {
     match id {
@@ -14,6 +15,7 @@ pub fn run(id: &str, tier: &str) -> i32 {
         "C06" => framing::check_c06(tier),
         "C07" => framing::check_c07(tier),
         "C08" => server_family::check_c08(tier),
+        "C09" => tls::check_c09(tier),
         "C10" => client_sm::check_c10(tier),
         "C11" => client_sm::check_c11(tier),
         "C12" => client_sm::check_c12(tier),
@@ -60,6 +62,7 @@ pub fn replay(path: &str) -> i32 {
         Some("client-sm-wrap") => client_sm::replay_wrap(),
         Some("c14-pure") => client_sm::replay_c14_pure(scn),
         Some("c20-client") | Some("c20-server") | Some("c20-stream") => decode::replay_c20(scn),
+        Some("c09") | Some("c09-probe") => tls::replay_c09(scn),
         Some("client-sm") => client_sm::replay(scn),
         Some("client-stream") => framing::replay_client_stream(scn),
         k => {
